@@ -1,11 +1,265 @@
-/- Driver for C20 (stub — not built yet) -/
+/-
+Driver for C20.  From the script (same parsing rules as harness/src/c20.rs) and the observations the
+harness made at the stopping point (`stop`, `q`, `fin` lines; which tracked objects were still alive)
+it builds the description `Own.Desc` of the stopped simulation, runs the model (`Own.dropSim`,
+`Own.leaked`, `Own.wired` — the definitions the theorems of Props/C20.lean are about) and compares
+the model's per-kind verdict with the destructor counters of the real run.  Independently the
+acceptance rule of the property is applied to the counters themselves: every created object must have
+been dropped exactly once after the result of the run was dropped (`kind=reject` otherwise), and the
+second simulation run in the same process must produce the trace of a fresh process.
+The tie observes outcomes only (counters, queue lengths, event counts), not the reference graph.
+-/
+import Desverif.Spec.OwnRank
 import Driver.Common
 namespace Driver.C20
-open Driver
+open Own Driver
+
+structure ModDecl where
+  name : String
+  parent : Option Nat
+  pe : Nat
+
+structure ChainDecl where
+  name : String
+  ch : String
+  ring : Bool
+  mods : List Nat          -- module indices, distinct
+
+structure TaskDecl where
+  tag : String
+  mod : Nat
+  wait : Nat → Wait        -- given the slot index
+  sleeps : Bool
+  joined : Bool
+  sends : Bool             -- the task sends a message when its sleep is over
+
+structure Obj where
+  kind : String
+  tag : String
+  c : Nat
+  s : Nat
+  d : Nat
+
+def modIdx (ms : List ModDecl) (n : String) : Option Nat := ms.findIdx? (·.name == n)
+
+def parseMods (body : List String) : List ModDecl := Id.run do
+  let mut ms : List ModDecl := []
+  for line in body do
+    match words line with
+    | "mod" :: m :: rest =>
+      if (modIdx ms m).isNone && !(m.contains '.') then
+        let parent := (kv rest "parent").bind (modIdx ms)
+        ms := ms ++ [⟨m, parent, (kvNat rest "pe").getD 0⟩]
+    | _ => pure ()
+  return ms
+
+def parseChains (ms : List ModDecl) (body : List String) : List ChainDecl := Id.run do
+  let mut cs : List ChainDecl := []
+  for line in body do
+    match words line with
+    | "chain" :: c :: rest =>
+      if !cs.any (·.name == c) then
+        let mut mods : List Nat := []
+        for m in ((kv rest "mods").getD "").splitOn "," do
+          match modIdx ms m with
+          | some i => if !mods.contains i then mods := mods ++ [i]
+          | none => pure ()
+        if mods.length ≥ 2 then
+          let ring := (kv rest "ring") == some "1" && mods.length ≥ 3
+          cs := cs ++ [⟨c, (kv rest "ch").getD "none", ring, mods⟩]
+    | _ => pure ()
+  return cs
+
+def parseTasks (ms : List ModDecl) (cs : List ChainDecl) (body : List String) : List TaskDecl := Id.run do
+  let mut ts : List TaskDecl := []
+  for line in body do
+    match words line with
+    | "do" :: m :: _hook :: _key :: "task" :: t :: rest =>
+      match modIdx ms m with
+      | none => pure ()
+      | some mi =>
+        if ts.any (·.tag == t) then continue
+        match rest with
+        | ["sleep", _, _, j] => ts := ts ++ [⟨t, mi, fun s => .sleep s, true, j != "none", false⟩]
+        | ["recv", own, _, j] => ts := ts ++ [⟨t, mi, fun _ => .recv (own != "1"), false, j != "none", false⟩]
+        | ["ssend", _, c, _, _] =>
+          if cs.any (fun x => x.name == c && x.mods.contains mi) then
+            ts := ts ++ [⟨t, mi, fun s => .sleep s, true, false, true⟩]
+        | _ => pure ()
+    | _ => pure ()
+  return ts
+
+/-- number of emissions scripted for `at_sim_end` (they stay in the static event buffer) -/
+def endEmits (ms : List ModDecl) (body : List String) : Nat :=
+  (body.filter fun line =>
+    match words line with
+    | "do" :: m :: "end" :: _ :: act :: _ => (modIdx ms m).isSome && (act == "send" || act == "sched")
+    | _ => false).length
+
+def parseObjs (body : List String) : List Obj :=
+  body.filterMap fun line =>
+    match words line with
+    | "obj" :: k :: t :: rest => some ⟨k, t, (kvNat rest "c").getD 0, (kvNat rest "s").getD 0, (kvNat rest "d").getD 0⟩
+    | _ => none
+
+def natList (s : String) : List Nat := (s.splitOn ",").filterMap String.toNat?
+
+def baseTag (t : String) : String := (t.splitOn "#").headD t
+
+def qmsg (ep : Nat) : MsgD := ⟨true, some ep⟩
+
+/-- gates and links of all chains: gate ids are allocated chain by chain -/
+def wiring (cs : List ChainDecl) (qs : List (String × String × List Nat)) : List Nat × List LinkD := Id.run do
+  let mut gates : List Nat := []
+  let mut links : List LinkD := []
+  for c in cs do
+    let base := gates.length
+    let n := c.mods.length
+    gates := gates ++ c.mods
+    let fwd := (qs.find? fun q => q.1 == c.name && q.2.1 == "fwd").map (·.2.2) |>.getD []
+    let bwd := (qs.find? fun q => q.1 == c.name && q.2.1 == "bwd").map (·.2.2) |>.getD []
+    let chan := c.ch != "none"
+    for i in List.range (n - 1) do
+      let a := base + i
+      let b := base + i + 1
+      let nab := fwd.getD i 0
+      let nba := bwd.getD (n - 2 - i) 0
+      links := links ++ [⟨a, b, chan, List.replicate nab (qmsg b), List.replicate nba (qmsg a)⟩]
+    if c.ring then
+      links := links ++ [⟨base + n - 1, base, chan, [], []⟩]
+  return (gates, links)
+
+def sim2Expected : String :=
+  -- x sends 1,2,3 with send_in 1,2,3 ns over a 1 ns channel; y spawns a 5 ns sleeper on message 1
+  let arr := [1, 2, 3].map fun i => s!"y:{i}@{i + 1}"
+  let t := (1 + 1) + 5
+  ",".intercalate (arr ++ [s!"t@{t}", s!"ok:{t}:0"])
+
+def kindOfNode : NId → String
+  | .state _ => "mod" | .pe _ _ => "pe" | .taskState _ _ => "task" | .body _ => "body" | .probe _ _ => "probe" | _ => "?"
+
+def countKind (l : List String) (k : String) : Nat := (l.filter (· == k)).length
+
+def processCase (c : Case) : String := Id.run do
+  let hdr := words c.header
+  let id := hdr[1]?.getD "?"
+  let stop := (kv hdr "stop").getD "full"
+  let ms := parseMods c.body
+  let cs := parseChains ms c.body
+  let ts := parseTasks ms cs c.body
+  let objs := parseObjs c.body
+  let stopL := (c.body.find? (·.startsWith "stop ")).map words |>.getD []
+  let finL := (c.body.find? (·.startsWith "fin ")).map words |>.getD []
+  let sim2 := (c.body.find? (·.startsWith "sim2 ")).map (fun l => (l.drop 5).toString.trimAscii.toString) |>.getD ""
+  let res := (kv finL "res").getD "?"
+  let started := !(stop == "never" || stop == "never0")
+  let fes := (kvNat stopL "fes").getD 0
+  let kept := (kvNat stopL "kept").getD 0
+  let queued := (kvNat stopL "queued").getD 0
+  let down := ((kv stopL "down").getD "-").splitOn ","
+  let qs := c.body.filterMap fun line =>
+    match words line with
+    | ["q", cn, dir, ns] => some (cn, dir, natList ns)
+    | _ => none
+  -- ---------------------------------------------------------------- description
+  let aliveTasks := objs.filter fun o => o.kind == "task" && o.s == 0
+  let mut mods : List ModD := []
+  let mut mi := 0
+  let mut slotTotal := 0
+  for m in ms do
+    let mine := aliveTasks.filterMap fun o => ts.find? fun t => t.tag == baseTag o.tag && t.mod == mi
+    -- an inactive module is either shut down (`Rt::Shutdown`, no tasks) or one that panicked (its runtime lives on)
+    let running := started && (!down.contains m.name || !mine.isEmpty)
+    let mut tds : List TaskD := []
+    let mut slot := 0
+    for t in mine do
+      tds := tds ++ [⟨t.wait slot, t.joined⟩]
+      if t.sleeps then slot := slot + 1
+    slotTotal := slotTotal + slot
+    let keptHere := if mi == 0 then List.replicate kept (⟨true, none⟩ : MsgD) else []
+    mods := mods ++ [⟨m.parent, m.pe, running, if running then tds else [], if running then slot else 0, keptHere⟩]
+    mi := mi + 1
+  let (gates, links) := wiring cs qs
+  let firstChan := (links.findIdx? (·.chan)).getD 0
+  let mkEvs (hm ex ub rs aw : Nat) : List EvD :=
+    List.replicate hm (.handle 0 ⟨true, none⟩) ++ List.replicate ex (.exiting 0 none ⟨true, none⟩) ++
+    List.replicate ub (.unbusy firstChan true) ++ List.replicate rs (.restart 0) ++ List.replicate aw (.wakeup 0)
+  let remEvs := if res == "ok" then
+      mkEvs ((kvNat finL "hm").getD 0) ((kvNat finL "ex").getD 0) ((kvNat finL "ub").getD 0)
+        ((kvNat finL "rs").getD 0) ((kvNat finL "aw").getD 0)
+    else []
+  let fesEvs := if res == "ok" then [] else mkEvs fes 0 0 0 0
+  let bufN := if started && res != "panic" then endEmits ms c.body else 0
+  let d : Desc := { mods := mods, gates := gates, links := links, fes := fesEvs, rem := remEvs,
+                    buf := mkEvs bufN 0 0 0 0 }
+  -- ---------------------------------------------------------------- model verdict
+  let st := dropSim d
+  let mleak := (leaked d).map kindOfNode
+  let isWired := wired d
+  -- ---------------------------------------------------------------- acceptance rule on the counters
+  let bad := objs.filter fun o => o.d != o.c || o.c != 1
+  let oleak := (objs.filter fun o => o.d < o.c).map (·.kind)
+  let odouble := (objs.filter fun o => o.d > o.c).map (·.kind)
+  let kinds := ["mod", "pe", "task", "body", "probe"]
+  let nobjs := objs.length
+  match bad.head? with
+  | some o =>
+    let idx := (objs.findIdx? fun x => x.tag == o.tag && x.kind == o.kind).getD 0
+    let per := " ".intercalate (kinds.map fun k => s!"{k}:leaked={countKind oleak k},double={countKind odouble k}")
+    let mper := " ".intercalate (kinds.map fun k => s!"{k}={countKind mleak k}")
+    -- does the model of the code before the C20 repair (queued connection keeps its channel) explain it?
+    let oldLeak := (leaked { d with keepChan := true }).map kindOfNode
+    let explained := odouble.isEmpty && queued > 0 && kinds.all fun k => countKind oldLeak k == countKind oleak k
+    let mper := mper ++ (if explained then "] tag=backlog-cycle old-code-model=[body=" ++ toString (countKind oldLeak "body") else "")
+    return s!"fail {id} op={idx} kind=reject clause=dropped-exactly-once first={o.kind}:{o.tag} c={o.c} d={o.d} {per} stop={stop} res={res} queued={queued} fes={fes} model-leaks=[{mper}]"
+  | none => pure ()
+  if sim2 != sim2Expected then
+    return s!"fail {id} op={nobjs} kind=reject clause=second-simulation spec={sim2Expected} impl={sim2}"
+  -- ---------------------------------------------------------------- tie
+  if st.err.isSome then
+    return s!"fail {id} op=0 kind=diverge what=model-error"
+  if !isWired then
+    return s!"fail {id} op=0 kind=diverge what=description-not-wired"
+  if !mleak.isEmpty then
+    let mper := " ".intercalate (kinds.map fun k => s!"{k}={countKind mleak k}")
+    return s!"fail {id} op=0 kind=diverge what=model-predicts-leak model=[{mper}] impl=none"
+  let nMod := (objs.filter (·.kind == "mod")).length
+  let nPe := (objs.filter (·.kind == "pe")).length
+  let mPe := (ms.map (·.pe)).foldl (· + ·) 0
+  if nMod != ms.length || nPe != mPe then
+    return s!"fail {id} op=0 kind=diverge what=object-census model=mods:{ms.length},pe:{mPe} impl=mods:{nMod},pe:{nPe}"
+  let mTasks := (mods.map (·.tasks.length)).foldl (· + ·) 0
+  -- tasks alive in an inactive module whose script cannot panic: `shutdown` must have dropped them
+  let canPanic (m : String) : Bool := c.body.any fun line =>
+    match words line with
+    | "do" :: m' :: _ :: _ :: act :: _ => m' == m && (act == "panic" || act == "send" || act == "task")
+    | _ => false
+  let downTasks := (aliveTasks.filter fun o =>
+      match ts.find? fun t => t.tag == baseTag o.tag with
+      | some t =>
+        let mn := (ms[t.mod]?.map (·.name)).getD ""
+        down.contains mn && !canPanic mn
+      | none => true).length
+  if mTasks != aliveTasks.length then
+    return s!"fail {id} op=0 kind=diverge what=task-census model={mTasks} impl={aliveTasks.length}"
+  if downTasks != 0 then
+    return s!"fail {id} op=0 kind=diverge what=task-alive-in-shut-down-module n={downTasks}"
+  let aliveBodies := (objs.filter fun o => o.kind == "body" && o.s == 0).length
+  -- a sender task that is due may still run (and send into the static buffer) inside `finish()`
+  let senders := (aliveTasks.filter fun o => (ts.find? fun t => t.tag == baseTag o.tag).any (·.sends)).length
+  let room := fes + queued + kept + bufN + senders
+  if started && aliveBodies > room then
+    return s!"fail {id} op=0 kind=diverge what=bodies-outside-modelled-places alive={aliveBodies} fes={fes} queued={queued} kept={kept} buf={bufN}"
+  -- `finish()` hands over the pending events, plus at most one wake-up per module scheduled by `at_sim_end`
+  let rem := (kvNat finL "rem").getD 0
+  if res == "ok" && (rem < fes || rem > fes + ms.length) then
+    return s!"fail {id} op=0 kind=diverge what=remaining-vs-fes rem={rem} fes={fes}"
+  let nt := started && res != "panic" && (fes > 0 || queued > 0 || aliveTasks.length > 0)
+  return s!"ok {id} nt={if nt then 1 else 0} objs={nobjs} mods={ms.length} alivetasks={aliveTasks.length} queued={queued} pending={fes} alivebodies={aliveBodies} nodes={(nodesOf d).eraseDups.length} errend={if res == "err" then 1 else 0} rings={(cs.filter (·.ring)).length}"
 
 def main (stdin : IO.FS.Stream) : IO Unit := do
   let cases ← readCases stdin
   for c in cases do
-    IO.println s!"fail {(words c.header)[1]?.getD "?"} op=0 kind=unimplemented"
+    IO.println (processCase c)
 
 end Driver.C20
